@@ -54,7 +54,7 @@ theorem tensor_total (f g : OHG O A) :
             f.h.t.sources.target + g.h.t.sources.target - 1⟩, FinFun.tensor f.h.t.values g.h.t.values⟩,
          f.h.w ++ g.h.w, f.h.x ++ g.h.x⟩⟩
       else .panic "ic.tensor:underflow" :=
-  OHG.tensor_total f g
+  Tensor.ohg_tensor_total f g
 
 /-- the panic site is reachable on malformed input -/
 example : OHG.tensor exBad exBad = .panic "ic.tensor:underflow" := rfl
@@ -63,15 +63,15 @@ example : OHG.tensor exBad exBad = .panic "ic.tensor:underflow" := rfl
 
 theorem tensor_ok (f g : OHG O A) (hf : f.wf) (hg : g.wf) :
     ∃ r, OHG.tensor f g = .ok r ∧ r.wf :=
-  ⟨_, OHG.tensor_ok_left f g hf, OHG.tensorD_wf f g hf hg⟩
+  ⟨_, Tensor.ohg_tensor_ok_left f g hf, Tensor.ohgTensorD_wf f g hf hg⟩
 
 /-- one well-formed factor already rules out the panic (a valid segmented array has
     `sources.target = sum + 1 ≥ 1`) -/
 theorem tensor_ok_of_left (f g : OHG O A) (hf : f.wf) : ∃ r, OHG.tensor f g = .ok r :=
-  ⟨_, OHG.tensor_ok_left f g hf⟩
+  ⟨_, Tensor.ohg_tensor_ok_left f g hf⟩
 
 theorem tensor_ok_of_right (f g : OHG O A) (hg : g.wf) : ∃ r, OHG.tensor f g = .ok r :=
-  ⟨_, OHG.tensor_ok_right f g hg⟩
+  ⟨_, Tensor.ohg_tensor_ok_right f g hg⟩
 
 example : exF.wf ∧ exG.wf ∧ ∃ r, OHG.tensor exF exG = .ok r ∧ r.wf := ⟨by decide, by decide, _, rfl, by decide⟩
 
@@ -88,7 +88,7 @@ theorem tensor_fields (f g r : OHG O A) (h : OHG.tensor f g = .ok r) :
     r.h.t.sources.table = f.h.t.sources.table ++ g.h.t.sources.table ∧
     r.h.t.sources.target = f.h.t.sources.target + g.h.t.sources.target - 1 ∧
     r.h.t.values = FinFun.tensor f.h.t.values g.h.t.values := by
-  rw [OHG.tensor_total] at h
+  rw [Tensor.ohg_tensor_total] at h
   split at h
   · cases h; exact ⟨rfl, rfl, rfl, rfl, rfl, rfl, rfl, rfl, rfl, rfl⟩
   · cases h
@@ -106,19 +106,19 @@ theorem tensor_segs (f g r : OHG O A) (hf : f.wf) (hg : g.wf) (h : OHG.tensor f 
     r.h.t.sources.target = (f.h.t.sources.table ++ g.h.t.sources.table).sum + 1 ∧
     r.h.s.segs = f.h.s.segs ++ g.h.s.segs.map (·.map (f.h.w.length + ·)) ∧
     r.h.t.segs = f.h.t.segs ++ g.h.t.segs.map (·.map (f.h.w.length + ·)) := by
-  rw [OHG.tensor_ok_left f g hf] at h
+  rw [Tensor.ohg_tensor_ok_left f g hf] at h
   cases h
-  obtain ⟨f1, -⟩ := (OHG.wf_iff f).1 hf
-  obtain ⟨g1, -⟩ := (OHG.wf_iff g).1 hg
-  obtain ⟨fs, ft, -, -, f5, f6⟩ := (HG.wf_iff _).1 f1
-  obtain ⟨gs, gt, -⟩ := (HG.wf_iff _).1 g1
-  have vfs := ((IC.wf_iff _).1 fs).1
-  have vft := ((IC.wf_iff _).1 ft).1
-  have vs := IC.tensorD_valid _ _ vfs ((IC.wf_iff _).1 gs).1
-  have vt := IC.tensorD_valid _ _ vft ((IC.wf_iff _).1 gt).1
+  obtain ⟨f1, -⟩ := (Tensor.ohg_wf_iff f).1 hf
+  obtain ⟨g1, -⟩ := (Tensor.ohg_wf_iff g).1 hg
+  obtain ⟨fs, ft, -, -, f5, f6⟩ := (Tensor.hg_wf_iff _).1 f1
+  obtain ⟨gs, gt, -⟩ := (Tensor.hg_wf_iff _).1 g1
+  have vfs := ((Tensor.ic_wf_iff _).1 fs).1
+  have vft := ((Tensor.ic_wf_iff _).1 ft).1
+  have vs := Tensor.icTensorD_valid _ _ vfs ((Tensor.ic_wf_iff _).1 gs).1
+  have vt := Tensor.icTensorD_valid _ _ vft ((Tensor.ic_wf_iff _).1 gt).1
   refine ⟨((IC.valid_iff _).1 vs).1, ((IC.valid_iff _).1 vt).1, ?_, ?_⟩
-  · rw [← f5]; exact IC.tensorD_segs _ _ vfs
-  · rw [← f6]; exact IC.tensorD_segs _ _ vft
+  · rw [← f5]; exact Tensor.icTensorD_segs _ _ vfs
+  · rw [← f6]; exact Tensor.icTensorD_segs _ _ vft
 
 example : exF.wf ∧ exG.wf ∧
     OHG.tensor exF exG = .ok ⟨⟨[0, 1], 5⟩, ⟨[2, 4, 4], 5⟩,
@@ -132,9 +132,9 @@ example : exF.wf ∧ exG.wf ∧
     well-formed (its declared codomains must agree with its node count). -/
 theorem tensor_toPlain (f g r : OHG O A) (hf : f.wf) (h : OHG.tensor f g = .ok r) :
     r.toPlain = PDiag.juxt f.toPlain g.toPlain := by
-  rw [OHG.tensor_ok_left f g hf] at h
+  rw [Tensor.ohg_tensor_ok_left f g hf] at h
   cases h
-  exact OHG.tensorD_toPlain f g hf
+  exact Tensor.ohgTensorD_toPlain f g hf
 
 /-- `PDiag.juxt` spelled out (the definition of "literally `f` followed by `g`") -/
 theorem juxt_fields (P Q : PDiag O A) :
@@ -160,10 +160,10 @@ example :
 theorem tensor_type (f g r : OHG O A) (hf : f.wf) (hg : g.wf) (h : OHG.tensor f g = .ok r) :
     (∃ a b, f.source = .ok a ∧ g.source = .ok b ∧ r.source = .ok (a ++ b)) ∧
     (∃ a b, f.target = .ok a ∧ g.target = .ok b ∧ r.target = .ok (a ++ b)) := by
-  rw [OHG.tensor_ok_left f g hf] at h
+  rw [Tensor.ohg_tensor_ok_left f g hf] at h
   cases h
-  exact ⟨⟨_, _, OHG.source_ok f hf, OHG.source_ok g hg, OHG.tensorD_source f g hf hg⟩,
-         ⟨_, _, OHG.target_ok f hf, OHG.target_ok g hg, OHG.tensorD_target f g hf hg⟩⟩
+  exact ⟨⟨_, _, Tensor.ohg_source_ok f hf, Tensor.ohg_source_ok g hg, Tensor.ohgTensorD_source f g hf hg⟩,
+         ⟨_, _, Tensor.ohg_target_ok f hf, Tensor.ohg_target_ok g hg, Tensor.ohgTensorD_target f g hf hg⟩⟩
 
 /-- the same as equations between computations -/
 theorem tensor_type_eq (f g r : OHG O A) (hf : f.wf) (hg : g.wf) (h : OHG.tensor f g = .ok r) :
@@ -183,14 +183,14 @@ example : exF.wf ∧ exG.wf ∧ exF.source = .ok [10, 11] ∧ exG.source = .ok [
 theorem tensor_assoc (f g h : OHG O A) (hf : f.wf) (hg : g.wf) (hh : h.wf) :
     (OHG.tensor f g >>= fun fg => OHG.tensor fg h) = (OHG.tensor g h >>= fun gh => OHG.tensor f gh) ∧
     ∃ r, (OHG.tensor f g >>= fun fg => OHG.tensor fg h) = .ok r ∧ r.wf := by
-  have hfg := OHG.tensorD_wf f g hf hg
-  have hgh := OHG.tensorD_wf g h hg hh
-  have e1 : (OHG.tensor f g >>= fun fg => OHG.tensor fg h) = .ok (OHG.tensorD (OHG.tensorD f g) h) := by
-    rw [OHG.tensor_ok_left f g hf, Res.ok_bind, OHG.tensor_ok_left _ h hfg]
-  have e2 : (OHG.tensor g h >>= fun gh => OHG.tensor f gh) = .ok (OHG.tensorD f (OHG.tensorD g h)) := by
-    rw [OHG.tensor_ok_left g h hg, Res.ok_bind, OHG.tensor_ok_left f _ hf]
-  rw [e1, e2, OHG.tensorD_assoc f g h (OHG.wf_pos g hg)]
-  exact ⟨rfl, _, rfl, OHG.tensorD_wf f _ hf hgh⟩
+  have hfg := Tensor.ohgTensorD_wf f g hf hg
+  have hgh := Tensor.ohgTensorD_wf g h hg hh
+  have e1 : (OHG.tensor f g >>= fun fg => OHG.tensor fg h) = .ok (Tensor.ohgTensorD (Tensor.ohgTensorD f g) h) := by
+    rw [Tensor.ohg_tensor_ok_left f g hf, Res.ok_bind, Tensor.ohg_tensor_ok_left _ h hfg]
+  have e2 : (OHG.tensor g h >>= fun gh => OHG.tensor f gh) = .ok (Tensor.ohgTensorD f (Tensor.ohgTensorD g h)) := by
+    rw [Tensor.ohg_tensor_ok_left g h hg, Res.ok_bind, Tensor.ohg_tensor_ok_left f _ hf]
+  rw [e1, e2, Tensor.ohgTensorD_assoc f g h (Tensor.ohg_wf_pos g hg)]
+  exact ⟨rfl, _, rfl, Tensor.ohgTensorD_wf f _ hf hgh⟩
 
 example : exF.wf ∧ exG.wf ∧ exH.wf ∧
     (OHG.tensor exF exG >>= fun fg => OHG.tensor fg exH) =
@@ -209,7 +209,7 @@ example :
 
 /-- `identity []` is the empty diagram -/
 theorem identity_nil : (OHG.identity [] : Res (OHG O A)) = .ok ⟨⟨[], 0⟩, ⟨[], 0⟩, HG.empty⟩ :=
-  OHG.identity_nil
+  Tensor.ohg_identity_nil
 
 theorem empty_wf_toPlain :
     (⟨⟨[], 0⟩, ⟨[], 0⟩, HG.empty⟩ : OHG O A).wf = true ∧
@@ -217,12 +217,12 @@ theorem empty_wf_toPlain :
 
 /-- holds for EVERY `f` (no well-formedness needed) -/
 theorem tensor_unit_left (f : OHG O A) : (OHG.identity [] >>= fun e => OHG.tensor e f) = .ok f := by
-  rw [identity_nil, Res.ok_bind, OHG.tensor_total, if_pos ⟨by simp [HG.empty, IC.initial, FinFun.initial],
-    by simp [HG.empty, IC.initial, FinFun.initial]⟩, OHG.tensorD_empty_left]
+  rw [identity_nil, Res.ok_bind, Tensor.ohg_tensor_total, if_pos ⟨by simp [HG.empty, IC.initial, FinFun.initial],
+    by simp [HG.empty, IC.initial, FinFun.initial]⟩, Tensor.ohgTensorD_empty_left]
 
 theorem tensor_unit_right (f : OHG O A) : (OHG.identity [] >>= fun e => OHG.tensor f e) = .ok f := by
-  rw [identity_nil, Res.ok_bind, OHG.tensor_total, if_pos ⟨by simp [HG.empty, IC.initial, FinFun.initial],
-    by simp [HG.empty, IC.initial, FinFun.initial]⟩, OHG.tensorD_empty_right]
+  rw [identity_nil, Res.ok_bind, Tensor.ohg_tensor_total, if_pos ⟨by simp [HG.empty, IC.initial, FinFun.initial],
+    by simp [HG.empty, IC.initial, FinFun.initial]⟩, Tensor.ohgTensorD_empty_right]
 
 example : (OHG.identity [] >>= fun e => OHG.tensor e exG) = .ok exG ∧
     (OHG.identity [] >>= fun e => OHG.tensor exG e) = .ok exG := ⟨rfl, rfl⟩
@@ -264,18 +264,18 @@ theorem lax_tensor_fields (f g : LOHG O A) :
 /-- no hypotheses: associativity holds for all lax diagrams, pending unification pairs included -/
 theorem lax_tensor_assoc (f g h : LOHG O A) :
     LOHG.tensor (LOHG.tensor f g) h = LOHG.tensor f (LOHG.tensor g h) := by
-  simp only [LOHG.tensor, LHG.coproduct_assoc]
+  simp only [LOHG.tensor, Tensor.lhg_coproduct_assoc]
   simp [LHG.coproduct, Function.comp_def, Nat.add_assoc,
     Nat.add_comm g.hypergraph.nodes.length f.hypergraph.nodes.length]
 
 theorem lax_tensor_unit_left (f : LOHG O A) : LOHG.tensor LOHG.empty f = f := by
   obtain ⟨s, t, h⟩ := f
   have hn : (LHG.empty : LHG O A).nodes.length = 0 := rfl
-  simp [LOHG.tensor, LOHG.empty, LHG.coproduct_empty_left, hn]
+  simp [LOHG.tensor, LOHG.empty, Tensor.lhg_coproduct_empty_left, hn]
 
 theorem lax_tensor_unit_right (f : LOHG O A) : LOHG.tensor f LOHG.empty = f := by
   obtain ⟨s, t, h⟩ := f
-  simp [LOHG.tensor, LOHG.empty, LHG.coproduct_empty_right]
+  simp [LOHG.tensor, LOHG.empty, Tensor.lhg_coproduct_empty_right]
 
 /-- the in-place variants produce the same data -/
 theorem lax_tensor_assign_eq (f g : LOHG O A) : LOHG.tensorAssign f g = LOHG.tensor f g := rfl
@@ -293,11 +293,11 @@ theorem lax_append_eq (f g : LOHG O A) :
 /-- the lax coproduct is associative and unital on the nose as well -/
 theorem lax_coproduct_assoc (f g h : LHG O A) :
     LHG.coproduct (LHG.coproduct f g) h = LHG.coproduct f (LHG.coproduct g h) :=
-  LHG.coproduct_assoc f g h
+  Tensor.lhg_coproduct_assoc f g h
 
 theorem lax_coproduct_unit (f : LHG O A) :
     LHG.coproduct LHG.empty f = f ∧ LHG.coproduct f LHG.empty = f :=
-  ⟨LHG.coproduct_empty_left f, LHG.coproduct_empty_right f⟩
+  ⟨Tensor.lhg_coproduct_empty_left f, Tensor.lhg_coproduct_empty_right f⟩
 
 /-- lax witnesses: `lF` has a pending unification pair -/
 def lF : LOHG Nat Nat := ⟨[0, 1], [2], ⟨[10, 11, 12], [7], [⟨[0, 1], [2]⟩], ([0], [1])⟩⟩
@@ -307,5 +307,53 @@ example : lF.wf = true ∧ lG.wf = true ∧
     LOHG.tensor lF lG = ⟨[0, 1], [2, 4, 4],
       ⟨[10, 11, 12, 20, 21], [7, 8, 9], [⟨[0, 1], [2]⟩, ⟨[], [3]⟩, ⟨[3, 3], [4]⟩], ([0, 4], [1, 3])⟩⟩ := by
   decide
+
+/-- the lax tensor preserves well-formedness -/
+theorem lax_tensor_wf (f g : LOHG O A) (hf : f.wf) (hg : g.wf) : (LOHG.tensor f g).wf :=
+  Tensor.lohg_tensor_wf f g hf hg
+
+example : lF.wf ∧ lG.wf ∧ (LOHG.tensor lF lG).wf := by decide
+
+/-- the type of a lax tensor is the concatenation of the types (as computations: if reading the
+    type of `g` panics, so does reading the type of the tensor, at the same site); only the
+    interfaces of `f` have to be in range -/
+theorem lax_tensor_type (f g : LOHG O A)
+    (hs : ∀ i ∈ f.sources, i < f.hypergraph.nodes.length)
+    (ht : ∀ i ∈ f.targets, i < f.hypergraph.nodes.length) :
+    (LOHG.tensor f g).source = (do let a ← f.source; let b ← g.source; pure (a ++ b)) ∧
+    (LOHG.tensor f g).target = (do let a ← f.target; let b ← g.target; pure (a ++ b)) :=
+  ⟨Tensor.mapM_get_append_shift _ _ _ _ hs, Tensor.mapM_get_append_shift _ _ _ _ ht⟩
+
+example : (∀ i ∈ lF.sources, i < lF.hypergraph.nodes.length) ∧
+    (∀ i ∈ lF.targets, i < lF.hypergraph.nodes.length) ∧
+    lF.target = .ok [12] ∧ lG.target = .ok [21, 21] ∧ (LOHG.tensor lF lG).target = .ok [12, 21, 21] := by
+  decide
+
+/-- the plain diagram a lax open hypergraph denotes before quotienting (the pending unification
+    pairs are not part of it) -/
+def laxPlain (f : LOHG O A) : PDiag O A :=
+  ⟨f.hypergraph.nodes,
+   List.zipWith (fun x e => ⟨x, e.sources, e.targets⟩) f.hypergraph.edges f.hypergraph.adjacency,
+   f.sources, f.targets⟩
+
+/-- the lax tensor is juxtaposition of the denoted plain diagrams; `f` needs one adjacency entry
+    per edge label (part of `LHG.wf`) -/
+theorem lax_tensor_toPlain (f g : LOHG O A)
+    (hf : f.hypergraph.edges.length = f.hypergraph.adjacency.length) :
+    laxPlain (LOHG.tensor f g) = PDiag.juxt (laxPlain f) (laxPlain g) := by
+  have hc : ∀ n : Nat, (fun x => x + n) = (fun x => n + x) := fun n => by funext x; omega
+  simp only [laxPlain, LOHG.tensor, LHG.coproduct, PDiag.juxt, PDiag.n, hc]
+  rw [List.zipWith_append hf, List.zipWith_map_right, List.map_zipWith]
+  rfl
+
+example : lF.hypergraph.edges.length = lF.hypergraph.adjacency.length ∧
+    laxPlain (LOHG.tensor lF lG) =
+      ⟨[10, 11, 12, 20, 21], [⟨7, [0, 1], [2]⟩, ⟨8, [], [3]⟩, ⟨9, [3, 3], [4]⟩], [0, 1], [2, 4, 4]⟩ := by
+  decide
+
+/-- without that hypothesis labels and adjacency entries of `g` get mis-paired -/
+example :
+    let f : LOHG Nat Nat := ⟨[], [], ⟨[], [7], [], ([], [])⟩⟩
+    laxPlain (LOHG.tensor f lG) ≠ PDiag.juxt (laxPlain f) (laxPlain lG) := by decide
 
 end OH.C02
